@@ -96,7 +96,7 @@ def strategy():
         'rules': st.lists(worldops.packed(640 * 4).map(decode_rule), min_size=1, max_size=4),
         'calls': st.lists(st.integers(0, 8).map(decode_call), min_size=1, max_size=3),
         'ctor': st.integers(0, 3).map(lambda p: {'nest': bool(p % 2), 'trim': bool(p // 2)}),
-        'pre': st.booleans(), 'root_override': st.booleans(),
+        'pre': st.booleans(), 'root_override': st.booleans(), 'rootsep': st.integers(0, 3),
         # between two population calls a file may turn into a directory holding files (same name)
         'morph': st.lists(st.integers(0, 11), min_size=2, max_size=2),
         'amp': worldops.size_amp(none=24, sizes=(33, 70, 257, 259, 261))})
@@ -158,6 +158,11 @@ def _run(case, tmp, facts):
                       'args': list(r['args']), 'kwargs': dict(r['kwargs'])})
 
     ctor_root = pt.join(tmp, 'elsewhere') if case['root_override'] else root
+    # how the root is spelled is the caller's business: with a trailing separator it is the same directory
+    rootsep = case.get('rootsep', 0)
+    if rootsep in (1, 3):
+        ctor_root = ctor_root + os.sep
+        facts['root_spelled_with_trailing_separator'] += 1
     pop = desper.DirectoryResourcePopulator(ctor_root, nest_on_conflict=case['ctor']['nest'],
                                             trim_extensions=case['ctor']['trim'])
     for r in rules:
@@ -225,7 +230,9 @@ def _run(case, tmp, facts):
         if call['trim'] is not None:
             kwargs['trim_extensions'] = call['trim']
         if case['root_override']:
-            kwargs['root'] = root
+            kwargs['root'] = root + os.sep if rootsep in (2, 3) else root
+            if rootsep in (2, 3):
+                facts['root_spelled_with_trailing_separator'] += 1
         try:
             pop(rmap, **kwargs)
         except ValueError as exc:
